@@ -394,6 +394,13 @@ func init() {
 		delCalls := hexSorted(st.delCalls)
 		deleted := hexSorted(st.deleted)
 		verdict := cl.oracle(now, st.listOK, names, delCalls, deleted, st.lists)
+		for _, n := range st.delCalls {
+			// a cleaner only ever touches the snapshots of its own database: names that start
+			// with "<database>__" (another database may share a prefix of the name itself)
+			if !strings.HasPrefix(n, cleanerDB+"__") && verdict == "" {
+				verdict = "delete-called-on-a-snapshot-of-another-database " + n
+			}
+		}
 		if verdict == "" && st.others != 0 {
 			verdict = "store-or-load-called"
 		}
